@@ -709,6 +709,18 @@ func replayCase(sub string, raw json.RawMessage) string {
 			return "bad replay: " + err.Error()
 		}
 		return checkSetpathX(c)
+	case "ret-setpath":
+		var c retSetCase
+		if err := json.Unmarshal(raw, &c); err != nil {
+			return "bad replay: " + err.Error()
+		}
+		return checkRetSet(c)
+	case "ret-batch":
+		var c batchCase
+		if err := json.Unmarshal(raw, &c); err != nil {
+			return "bad replay: " + err.Error()
+		}
+		return checkBatch(c)
 	}
 	return "unknown sub " + sub
 }
@@ -1741,6 +1753,7 @@ func TestC13(t *testing.T) {
 	}
 
 	exhaustive(t)
+	exhaustiveRetained()
 
 	type rapidSub struct {
 		name string
@@ -1842,6 +1855,21 @@ func TestC13(t *testing.T) {
 			}
 		})
 	}
+
+	// retained forms: the forward map over a batch inside one query on one
+	// shared base, all results kept, then the inverse (see retained_test.go)
+	add("ret-setpath", rec.Scale(240000, 1920000), func(t *rapid.T) {
+		c := genRetSet().Draw(t, "case")
+		if msg := doRetSet(c); msg != "" {
+			t.Fatalf("%s", rec.Fail("ret-setpath", c, "%s", msg))
+		}
+	})
+	add("ret-batch", rec.Scale(180000, 1440000), func(t *rapid.T) {
+		c := genBatch().Draw(t, "case")
+		if msg := doBatch(c); msg != "" {
+			t.Fatalf("%s", rec.Fail("ret-batch", c, "%s", msg))
+		}
+	})
 
 	// Every sub-check has its own rapid seed, so the order of execution does
 	// not matter; it rotates with the shard so that the evidence samples (one
